@@ -1,5 +1,8 @@
 From Coq Require Import Extraction ExtrOcamlBasic NArith ZArith List.
-From MV Require Import Base.PyStr Base.Res Dir.PyLines Dir.DirModel.
+From MV Require Import Base.PyStr.
+From MV Require Import Base.Res.
+From MV Require Import Dir.PyLines.
+From MV Require Import Dir.DirModel.
 Extraction Language OCaml.
 Extraction "model.ml" N.succ N.to_nat Z.of_nat parse_directive_text dedent splitlines split_ws split_max
   old_body_and_offset.
